@@ -44,6 +44,27 @@ theorem FI.congr {Def Def' : Name → String → Prop} {E E' : Name × Name → 
     exact ⟨t, (hD _ t).2 ht⟩
   uPlain := h.uPlain
 
+/-- the set of nets that may exist as auto-created buffers can be enlarged -/
+theorem FI.mono_U {Def : Name → String → Prop} {E : Name × Name → Prop} {B : Name × BBox → Prop}
+    {U U' : Name → Prop} {c : Circuit} (h : FI Def E B U c) (hU : ∀ x, U x → U' x) (hP : ∀ x, U' x → Plain x) :
+    FI Def E B U' c where
+  wf := h.wf
+  tie0 := h.tie0
+  tie1 := h.tie1
+  tiex := h.tiex
+  def_ := h.def_
+  other := fun x hx => by
+    rcases h.other x hx with h1 | h1 | ⟨h1, h2⟩
+    · exact Or.inl h1
+    · exact Or.inr (Or.inl h1)
+    · exact Or.inr (Or.inr ⟨h1, hU x h2⟩)
+  edges := h.edges
+  bbs := h.bbs
+  defName := h.defName
+  defTy := h.defTy
+  edgeDef := h.edgeDef
+  uPlain := hP
+
 section
 variable {Def : Name → String → Prop} {E : Name × Name → Prop} {B : Name × BBox → Prop} {U : Name → Prop} {c : Circuit}
 
